@@ -15,7 +15,8 @@ import unit as U
 
 HERE = os.path.dirname(os.path.dirname(os.path.abspath(__file__)))
 REPO = U.REPO
-EVID = os.path.join(HERE, 'evidence')
+# evidence of runs against a scratch copy (VERIF_REPO=..., used by the seeded-change tools) never overwrites /verif/evidence
+EVID = os.environ.get('VERIF_EVIDENCE_DIR') or (os.path.join(HERE, 'evidence') if os.path.realpath(REPO) == '/repo' else '/var/tmp/aquavm-verif-evidence.scratch')
 KNOWN = os.path.join(HERE, 'known_findings.txt')
 
 _workdirs = []
